@@ -16,3 +16,38 @@ func vhC10FixOrder() {
 	vAssert(b.priority == -1, "C10.fix.last-priority-change-wins")
 	vCover("C10.fix.reach")
 }
+
+// C02/C01/C05/C16 at Progress.traverseBars (used by every bar's early-refresh helper), every schedule: the real
+// traverseBars against the real heapManager.run holding three bars and a stand-in container goroutine that
+// serves exactly the traversal request.  The callback stops the traversal at the stopAt-th bar and keeps saying
+// "stop" should it be asked again (as tryEarlyRefresh does for every running bar).  Whatever the manager's
+// select picks once the drop channel is closed: no panic, nobody stranded, no bar lost, the manager goes on
+// serving requests.
+func vhC02Traverse() {
+	m := newHeapManager(4)
+	go m.run()
+	b0, b1, b2 := vBarFor(&bState{}), vBarFor(&bState{}), vBarFor(&bState{})
+	b1.priority, b2.priority = 1, 2
+	m.push(b0, false)
+	m.push(b1, false)
+	m.push(b2, false)
+	p := &Progress{operateState: make(chan func(*pState)), done: make(chan struct{})}
+	ps := &pState{hm: m}
+	go func() {
+		fn := <-p.operateState
+		fn(ps)
+	}()
+	stopAt := vInt("stopAt")
+	vAssume(stopAt >= 1 && stopAt <= 4)
+	visited := 0
+	p.traverseBars(func(b *Bar) bool {
+		visited++
+		return visited < stopAt
+	})
+	vAssert(visited >= 1 && visited <= 3, "traverse.each-bar-visited-at-most-once")
+	ch := make(chan interface{}, 1)
+	m.end(ch)
+	got := (<-ch).([]*Bar)
+	vAssert(len(got) == 3, "traverse.no-bar-lost")
+	vCover("traverse.reach")
+}
